@@ -68,6 +68,8 @@ class LinComb:
       return LinComb(t)
     if isinstance(other, (int, float)) and other == 0:   # `h = 0; h = F(u) + beta*h`, sum() start
       return LinComb(self.terms)
+    if isinstance(other, SX) and other.e == 0:           # dt * sum(<empty>) == 0
+      return LinComb(self.terms)
     return NotImplemented
 
   def __add__(self, o):
